@@ -208,3 +208,17 @@ def c15(seed, tier, broken):
         d["match"] = "purity:" + d["what"]
         found.append(d)
     return dict(found=found, evaluations=r["cases"])
+
+
+def c04(seed, tier, broken):
+    from search import optimizer as O
+
+    w, ev, skipped = O.search_linear(seed, _n(tier, broken, 60, 3000))
+    return dict(found=[w] if w else [], evaluations=ev, skipped_rank_deficient=skipped)
+
+
+def c05(seed, tier, broken):
+    from search import optimizer as O
+
+    w, ev, stats = O.search_convergence(seed, _n(tier, broken, 60, 3000))
+    return dict(found=[w] if w else [], evaluations=ev, calibrated_bounds=O.CAL, **stats)
